@@ -4,6 +4,7 @@ import PdshVerif.Hostlist.Probed
 import PdshVerif.Hostlist.Spec
 import Driver.Util
 import Driver.HlEdit
+import Driver.HlXcl
 
 /-! line protocol of the `hl` engine (see harness/hl_harness.c for the format):
     `pdshmodel hl model`  — the executable model of hostlist.c / opt.c
@@ -123,6 +124,8 @@ def main (args : List String) : IO UInt32 := do
   | ["spec"] => Driver.forLines stdin () stepSpec; return 0
   | ["edit"] => Driver.forLines stdin (Driver.HlEdit.St.none) Driver.HlEdit.stepEdit; return 0
   | ["plspec"] => Driver.forLines stdin (none : Option EditSpec.PL) Driver.HlEdit.stepPL; return 0
-  | _ => IO.eprintln "usage: pdshmodel hl model|spec|edit|plspec"; return 2
+  | ["xcl"] => Driver.forLines stdin ({} : Driver.HlXcl.Acc) Driver.HlXcl.stepModel; return 0
+  | ["xspec"] => Driver.forLines stdin ({} : Driver.HlXcl.Acc) Driver.HlXcl.stepSpec; return 0
+  | _ => IO.eprintln "usage: pdshmodel hl model|spec|edit|plspec|xcl|xspec"; return 2
 
 end Driver.HlDrv
